@@ -10,7 +10,7 @@ from enum import StrEnum, auto
 from itertools import count
 from logging.handlers import QueueHandler
 from queue import Empty, Queue
-from threading import Thread
+from threading import Lock, Thread
 from typing import Any, Callable, Iterator, Optional, Sequence, cast
 from uuid import UUID, uuid4
 
@@ -126,6 +126,10 @@ class ProcessExecutor:
         self._running_id_to_future_and_process: dict[int, tuple[Future, multiprocessing.Process]] = {}
         # Use a Manager().Queue() to be able to share with subprocesses
         self._result_queue: Queue = multiprocessing.Manager().Queue(-1)
+        # A KeyboardInterrupt can leave a result consumer thread running
+        # while the caller carries on, so the running futures are only
+        # inspected and completed while holding this lock.
+        self._running_lock = Lock()
 
     def _start_processes(self):
         """Start processes for the oldest pending futures to bring
@@ -168,21 +172,23 @@ class ProcessExecutor:
         """Cancel all running futures and immediately terminate their execution."""
         # Nothing that is still pending may be started after stopping.
         self.cancel()
-        future_process_pairs = list(self._running_id_to_future_and_process.values())
-        for future, process in future_process_pairs:
-            if process.is_alive():
-                process.terminate()
-            future.cancel()
-            del self._running_id_to_future_and_process[future.id]
+        with self._running_lock:
+            future_process_pairs = list(self._running_id_to_future_and_process.values())
+            for future, process in future_process_pairs:
+                if process.is_alive():
+                    process.terminate()
+                future.cancel()
+                del self._running_id_to_future_and_process[future.id]
 
     def _consume_result_queue(self, *, timeout_seconds: Optional[float]):
         # Avoid race condition of a process finishing after we have
         # consumed the result_queue by fetching process statuses
         # before checking for process completion.
-        dead_process_futures = [
-            future for future, process in self._running_id_to_future_and_process.values()
-            if not process.is_alive()
-        ]
+        with self._running_lock:
+            dead_process_futures = [
+                future for future, process in self._running_id_to_future_and_process.values()
+                if not process.is_alive()
+            ]
 
         def _consume():
             inner_timeout_seconds = timeout_seconds
@@ -196,13 +202,15 @@ class ProcessExecutor:
                 # self._result_queue.get()
                 inner_timeout_seconds = 0
 
-                future, _ = self._running_id_to_future_and_process[future_id]
-                del self._running_id_to_future_and_process[future_id]
-                if not future.done:
-                    if isinstance(result_or_ex, BaseException):
-                        future.set_exception(result_or_ex)
-                    else:
-                        future.set_result(result_or_ex)
+                with self._running_lock:
+                    # The future is gone if it has been stopped or
+                    # failed in the meantime.
+                    future, _ = self._running_id_to_future_and_process.pop(future_id, (None, None))
+                    if future is not None and not future.done:
+                        if isinstance(result_or_ex, BaseException):
+                            future.set_exception(result_or_ex)
+                        else:
+                            future.set_result(result_or_ex)
 
         # Consume the result queue in a thread so that it is not
         # interrupt by KeyboardInterrupt, which can result in us not
@@ -216,11 +224,12 @@ class ProcessExecutor:
 
         # If any processes have died without the future being
         # cancelled or finished, then set an exception for it.
-        for future in dead_process_futures:
-            if future.done:
-                continue
-            future.set_exception(TaskDiedError())
-            del self._running_id_to_future_and_process[future.id]
+        with self._running_lock:
+            for future in dead_process_futures:
+                if future.done:
+                    continue
+                future.set_exception(TaskDiedError())
+                del self._running_id_to_future_and_process[future.id]
 
     def wait(self, futures: Sequence[Future], *, timeout_seconds: Optional[float]) -> tuple[list[Future], list[Future]]:
         """Wait up to timeout_seconds or until at least one of the
